@@ -70,6 +70,21 @@ def gen_history(rnd):
     g = G(cfg=CFG, rnd=rnd)
     ops = []
     depth = 0
+    if rnd.random() < 0.15:
+        # two instances of one parametric sort, first used at different levels (one declaration of the sort
+        # constructor serves both, while it is in scope)
+        s1, s2 = rnd.sample([SORT("L{S1}"), SORT("L{L{S1}}"), SORT("S1")], 2)
+        ops.append(("assert", ("NOT", (), (("EQUALS", (), (g.symbol(s1), g.symbol(s1))),)) if rnd.random() < 0.5 else ("EQUALS", (), (g.symbol(s1), g.symbol(s1)))))
+        lv = rnd.choice([1, 1, 2])
+        ops.append(("push", lv))
+        depth += lv
+        ops.append(("assert", ("EQUALS", (), (g.symbol(s2), g.symbol(s2)))))
+        ops.append(("solve",))
+        if rnd.random() < 0.5:
+            ops.append(("pop", 1))
+            depth -= 1
+            ops.append(("assert", ("EQUALS", (), (g.symbol(s2), g.symbol(s2)))))
+            ops.append(("solve",))
     n = rnd.randint(3, 14)
     for _ in range(n):
         k = rnd.randrange(16)
